@@ -409,7 +409,7 @@ def run_property(prop_mod_name, tier, replay=None):
         samples.extend(st.samples[:2])
     labels = {}
     for name, st in allstats.items():
-        labels[name] = dict(st.labels.most_common(40))
+        labels[name] = dict(st.labels.most_common(90))
     evidence = {
         "property_id": prop, "tier": tier, "seed": seed_value,
         "level": "exploration",
